@@ -118,6 +118,19 @@ Lemma land1_cases y : Z.land y 1 = 0 \/ Z.land y 1 = 1.
 Proof. rewrite land1. pose proof (Z.mod_pos_bound y 2 ltac:(lia)). lia. Qed.
 Lemma curve_p_odd : curve_p mod 2 = 1.
 Proof. vm_compute. reflexivity. Qed.
+Lemma curve_p_pos : 0 < curve_p.
+Proof. vm_compute. reflexivity. Qed.
+Lemma curve_p_bound : curve_p < 2 ^ 256.
+Proof. vm_compute. reflexivity. Qed.
+Lemma curve_n_bound : curve_n < 2 ^ 256.
+Proof. vm_compute. reflexivity. Qed.
+Lemma on_curve_neg x y : on_curve (x, curve_p - y) = on_curve (x, y).
+Proof.
+  unfold on_curve. f_equal.
+  replace ((curve_p - y) * (curve_p - y) - (x * x * x + curve_a * x + curve_b))
+    with ((y * y - (x * x * x + curve_a * x + curve_b)) + (curve_p - 2 * y) * curve_p) by ring.
+  apply Z.mod_add. pose proof curve_p_pos. lia.
+Qed.
 
 Local Opaque curve_p curve_a curve_b curve_n Z.pow Z.modulo Z.mul Z.add Z.sub Z.land.
 Section Total.
@@ -333,30 +346,25 @@ Proof.
   destruct q' as [pt|]; auto. right. eauto.
 Qed.
 
-(* the point public_pair hands to Key.__init__ has a coordinate outside [0, p) *)
-Definition pair_unreduced (s : text) : bool :=
-  match public_pair_point int10 int16 modsqrt s with
-  | Ret (Some pt) => negb (in_range pt)
-  | _ => false
-  end.
+Lemma keys_public_pair_vt pt : value_total (keys_public_pair pt).
+Proof. unfold keys_public_pair. apply value_total_bind. apply key_material_public_vt. intros; exact I. Qed.
 
-Lemma public_pair_partial net s :
-  on_curve (mulG 1) = true -> in_range (mulG 1) = true -> pair_unreduced s = false ->
+Lemma public_pair_total net s :
+  on_curve (mulG 1) = true -> in_range (mulG 1) = true ->
   returns (public_pair int10 int16 mulG modsqrt net s).
 Proof.
-  intros HG HR Hx. unfold public_pair, keys_private, key_material_private.
+  intros HG HR. unfold public_pair, keys_private, key_material_private.
   replace (valid_exponent 1) with true by (vm_compute; reflexivity). rewrite HG, HR. cbn [bind].
-  unfold pair_unreduced in Hx.
-  destruct (public_pair_point_spec s) as [E|[pt [E Hc]]]; rewrite E in *; cbn [bind]; auto with c18.
-  apply negb_false_iff in Hx. unfold keys_public_pair, key_material_public. rewrite Hc, Hx. cbn. auto with c18.
+  destruct (public_pair_point_spec s) as [E|[pt [E Hc]]]; rewrite E; cbn [bind]; auto with c18.
+  apply catch_value_returns, keys_public_pair_vt.
 Qed.
 
-Lemma public_key_partial net s :
-  on_curve (mulG 1) = true -> in_range (mulG 1) = true -> pair_unreduced s = false ->
+Lemma public_key_total net s :
+  on_curve (mulG 1) = true -> in_range (mulG 1) = true ->
   returns (public_key int10 int16 mulG modsqrt net s).
 Proof.
-  intros HG HR Hx. apply disabled_or_returns. apply first_of_returns. intros f [<-|[<-|[]]].
-  apply public_pair_partial; assumption. apply sec_total.
+  intros HG HR. apply disabled_or_returns. apply first_of_returns. intros f [<-|[<-|[]]].
+  apply public_pair_total; assumption. apply sec_total.
 Qed.
 
 (* whatever public_pair returns has coordinates in [0, p) and lies on the curve *)
@@ -367,8 +375,8 @@ Proof.
   unfold public_pair. destruct (keys_private mulG 1 true); cbn [bind]; try discriminate.
   destruct (public_pair_point int10 int16 modsqrt s) as [[pt|]| |]; cbn [bind]; try discriminate.
   unfold keys_public_pair, key_material_public.
-  destruct (on_curve pt) eqn:C; cbn [bind]; try discriminate.
-  destruct (in_range pt) eqn:R; cbn [bind]; try discriminate.
+  destruct (on_curve pt) eqn:C; cbn [bind catch_value is_value_error]; try discriminate.
+  destruct (in_range pt) eqn:R; cbn [bind catch_value is_value_error]; try discriminate.
   intros [= <-]. eauto.
 Qed.
 
@@ -1029,13 +1037,12 @@ Proof. vm_compute. reflexivity. Qed.
 Lemma w_sec_reparsed : public_key dec10 no_int mulG_w modsqrt_real btc_cfg w_sec_text = Ret (Some w_sec_key).
 Proof. vm_compute. reflexivity. Qed.
 
-(* 2. public_pair: x = p + 1 names the point with x = 1; Key.__init__ now refuses it, but the refusal
-      (InvalidPublicPairError) is raised outside any try and escapes public_pair / public_key *)
+(* 2. public_pair: x = p + 1 names the point with x = 1; Key.__init__ refuses it and public_pair returns None *)
 Definition w_pair_text : text :=
   text_of_string "115792089237316195423570985008687907853269984665640564039457584007908834671664/even".
-Lemma w_pair_raises :
-  public_pair dec10 no_int mulG_w modsqrt_real btc_cfg w_pair_text = Raise E_PUBPAIR /\
-  public_key dec10 no_int mulG_w modsqrt_real btc_cfg w_pair_text = Raise E_PUBPAIR.
+Lemma w_pair_refused :
+  public_pair dec10 no_int mulG_w modsqrt_real btc_cfg w_pair_text = Ret None /\
+  public_key dec10 no_int mulG_w modsqrt_real btc_cfg w_pair_text = Ret None.
 Proof. split; vm_compute; reflexivity. Qed.
 (* electrum_pub catches the same refusal *)
 Definition w_electrum_text : text :=
@@ -1207,14 +1214,6 @@ Proof.
   pose proof table_kinds_separated as T. rewrite forallb_forall in T. exact (T net Hin).
 Qed.
 
-Lemma public_pair_not_total :
-  ~ (forall int10 int16 mulG modsqrt net s, on_curve (mulG 1) = true -> in_range (mulG 1) = true ->
-     returns (public_pair int10 int16 mulG modsqrt net s)).
-Proof.
-  intros H. destruct (H dec10 no_int mulG_w modsqrt_real btc_cfg w_pair_text) as [v Hv]; try (vm_compute; reflexivity).
-  destruct w_pair_raises as [R _]. rewrite R in Hv. discriminate.
-Qed.
-
 Lemma hd_pub_not_public :
   ~ (forall b58 mulG modsqrt net kind s o, hd_pub b58 mulG modsqrt net kind s = Ret (Some o) -> obj_is_private o = false).
 Proof.
@@ -1224,7 +1223,7 @@ Qed.
 
 (* a SEC text whose x coordinate is >= p is refused *)
 Lemma sec_bad_x modsqrt net s b :
-  h2b s = Some b -> curve_p <= from_bytes (slice 1 33 b) -> sec modsqrt net s = Ret None.
+  h2b (strip_sec_prefix net s) = Some b -> curve_p <= from_bytes (slice 1 33 b) -> sec modsqrt net s = Ret None.
 Proof.
   intros Hb Hx. unfold sec. rewrite Hb. unfold key_from_sec, sec_to_public_pair.
   apply Z.leb_le in Hx. rewrite Hx. reflexivity.
@@ -1250,7 +1249,7 @@ Lemma sec_in_range modsqrt net s pt c :
   (forall a, 0 <= modsqrt a < curve_p) ->
   sec modsqrt net s = Ret (Some (OKey (Pub pt) c)) -> 0 <= fst pt < curve_p /\ 0 <= snd pt < curve_p.
 Proof.
-  intros Hs. unfold sec. destruct (h2b s) as [b|]; [|discriminate]. intros H. apply catch_all_inv in H.
+  intros Hs. unfold sec. destruct (h2b _) as [b|]; [|discriminate]. intros H. apply catch_all_inv in H.
   unfold key_from_sec in H. destruct (sec_to_public_pair modsqrt b) as [q| |] eqn:S; cbn [bind] in H; try discriminate.
   destruct (key_material_public q) as [k| |] eqn:K; cbn [bind] in H; try discriminate.
   apply key_material_public_inv in K; subst k. injection H as -> _.
@@ -1267,4 +1266,163 @@ Proof.
     injection S as <-. pose proof (points_for_x_range _ _ _ Hs P) as [R0 R1].
     apply points_for_x_shape in P as (X0' & X1' & _ & _).
     unfold pick. destruct (negb _); [rewrite X1'|rewrite X0']; auto.
+Qed.
+
+(* ---------------------------------------------------------------------------------------------- *)
+(* electrum wallets: as_text() = "E:" + hex parses back to the same wallet, entry point by entry point *)
+Lemma electrum_blob_of_text b : electrum_to_blob (tE ++ [58%N] ++ b2h b) = Some b.
+Proof.
+  unfold electrum_to_blob, parse_colon_prefix.
+  change (split_at 58 (tE ++ [58%N] ++ b2h b)) with (Some (tE, b2h b)).
+  change (text_eqb tE tE) with true. cbn iota. apply h2b_b2h.
+Qed.
+
+Lemma in_range_bounds x y : in_range (x, y) = true -> 0 <= x < curve_p /\ 0 <= y < curve_p.
+Proof.
+  unfold in_range. intros H. apply andb_prop in H as [H Hy2]. apply andb_prop in H as [H Hy1].
+  apply andb_prop in H as [Hx1 Hx2].
+  apply Z.leb_le in Hx1, Hy1. apply Z.ltb_lt in Hx2, Hy2. auto.
+Qed.
+
+Lemma to_bytes_32_ok v : 0 <= v < 2 ^ 256 ->
+  exists b, to_bytes_32 v = Ret b /\ from_bytes b = v /\ length b = 32%nat.
+Proof.
+  intros [H0 H1]. unfold to_bytes_32.
+  apply Z.leb_le in H0 as H0'. apply Z.ltb_lt in H1 as H1'. rewrite H0', H1'. cbn [andb].
+  eexists; split; [reflexivity|]. split; [|apply be_encode_length].
+  unfold from_bytes. rewrite be_decode_encode. apply Z2N.id, H0.
+  apply N2Z.inj_lt. rewrite Z2N.id by exact H0. rewrite N2Z.inj_pow.
+  Local Transparent Z.pow. change (Z.of_N 256 ^ Z.of_N (N.of_nat 32)) with (2 ^ 256). Local Opaque Z.pow. exact H1.
+Qed.
+
+Section ElectrumReser.
+Variable stretch : bytes -> Z.
+Variable mulG : Z -> Z * Z.
+
+Lemma electrum_seed_reserialize net s o :
+  electrum_seed stretch mulG net s = Ret (Some o) ->
+  exists t, electrum_text o = Ret t /\ electrum_seed stretch mulG net t = Ret (Some o).
+Proof.
+  unfold electrum_seed at 1. destruct (electrum_to_blob s) as [blob|]; [|discriminate].
+  destruct (Nat.eqb (length blob) 16) eqn:L; [|discriminate].
+  destruct (key_material_private mulG (stretch blob)) as [k| |] eqn:K; cbn [bind]; try discriminate.
+  intros [= <-]. exists (tE ++ [58%N] ++ b2h blob). split; [reflexivity|].
+  unfold electrum_seed. rewrite electrum_blob_of_text, L, K. reflexivity.
+Qed.
+
+Lemma electrum_prv_reserialize net s o :
+  electrum_prv mulG net s = Ret (Some o) ->
+  exists t, electrum_text o = Ret t /\ electrum_prv mulG net t = Ret (Some o).
+Proof.
+  unfold electrum_prv at 1. destruct (electrum_to_blob s) as [blob|]; [|discriminate].
+  destruct (Nat.eqb (length blob) 32) eqn:L; [|discriminate]. intros H.
+  apply catch_value_inv in H.
+  destruct (key_material_private mulG (from_bytes blob)) as [k| |] eqn:K; cbn [bind] in H; try discriminate.
+  pose proof K as K'. apply (key_material_private_inv mulG) in K as [pt ->]. injection H as <-.
+  exists (tE ++ [58%N] ++ b2h blob). split.
+  - cbn [electrum_text]. apply Nat.eqb_eq in L. rewrite (to_from_bytes_32 _ L). reflexivity.
+  - unfold electrum_prv. rewrite electrum_blob_of_text, L, K'. reflexivity.
+Qed.
+
+Lemma electrum_pub_reserialize net s o :
+  electrum_pub net s = Ret (Some o) ->
+  exists t, electrum_text o = Ret t /\ electrum_pub net t = Ret (Some o).
+Proof.
+  unfold electrum_pub at 1. destruct (electrum_to_blob s) as [blob|]; [|discriminate].
+  destruct (Nat.eqb (length blob) 64) eqn:L; [|discriminate]. intros H.
+  assert (Lx : length (take 32 blob) = 32%nat) by (apply Nat.eqb_eq in L; unfold take; rewrite firstn_length; lia).
+  assert (Ly : length (drop 32 blob) = 32%nat) by (apply Nat.eqb_eq in L; unfold drop; rewrite skipn_length; lia).
+  assert (Hb : take 32 blob ++ drop 32 blob = blob) by apply firstn_skipn.
+  remember (take 32 blob) as xs. remember (drop 32 blob) as ys.
+  apply catch_value_inv in H.
+  destruct (key_material_public (from_bytes xs, from_bytes ys)) as [k| |] eqn:K; cbn [bind] in H; try discriminate.
+  pose proof K as K'. apply key_material_public_inv in K; subst k. injection H as <-.
+  exists (tE ++ [58%N] ++ b2h blob). split.
+  - cbn [electrum_text fst snd]. rewrite (to_from_bytes_32 _ Lx). cbn [bind]. rewrite (to_from_bytes_32 _ Ly). cbn [bind].
+    rewrite Hb. reflexivity.
+  - unfold electrum_pub. rewrite electrum_blob_of_text, L. rewrite <- Heqxs, <- Heqys, K'. reflexivity.
+Qed.
+
+End ElectrumReser.
+
+(* ---------------------------------------------------------------------------------------------- *)
+(* keys returned by public_pair: the SEC text parses back, PROVIDED the square-root oracle is exact
+   (a statement about numbers: for p prime and p = 3 mod 4, pow(a, (p+1)/4, p) is a root of every residue a, and a
+   point's y is that root or its negative) *)
+Definition sqrt_exact (modsqrt : Z -> Z) : Prop :=
+  forall x y, on_curve (x, y) = true -> in_range (x, y) = true ->
+  let y0 := modsqrt (((x ^ 3) mod curve_p + curve_a * x + curve_b) mod curve_p) in
+  0 < y0 < curve_p /\ (y = y0 \/ y = curve_p - y0).
+
+Section PairReser.
+Variable modsqrt : Z -> Z.
+Hypothesis Hsqrt : sqrt_exact modsqrt.
+
+Lemma sec_compressed_decodes pt :
+  on_curve pt = true -> in_range pt = true ->
+  exists b, sec_compressed pt = Ret b /\ key_from_sec modsqrt b = Ret (OKey (Pub pt) true).
+Proof.
+  destruct pt as [x y]. intros C R. destruct (in_range_bounds _ _ R) as [[X0 X1] [Y0 Y1]].
+  destruct (to_bytes_32_ok x ltac:(pose proof curve_p_bound; lia)) as (xs & Tx & Fx & Lx).
+  unfold sec_compressed. cbn [fst snd]. rewrite Tx. cbn [bind].
+  set (c := n2b (Z.to_N (2 + Z.land y 1))). exists (c :: xs). split; [reflexivity|].
+  assert (Hc : (Z.land y 1 = 0 /\ c = x02) \/ (Z.land y 1 = 1 /\ c = x03)).
+  { unfold c. destruct (land1_cases y) as [E|E]; rewrite E; [left|right]; split; reflexivity. }
+  destruct (Hsqrt x y C R) as [[P0 P1] Hy]. cbv zeta in *.
+  set (y0 := modsqrt (((x ^ 3) mod curve_p + curve_a * x + curve_b) mod curve_p)) in *.
+  assert (C0 : on_curve (x, y0) = true).
+  { destruct Hy as [->| ->]. exact C. rewrite <- on_curve_neg. exact C. }
+  assert (C1 : on_curve (x, curve_p - y0) = true) by (rewrite on_curve_neg; exact C0).
+  assert (PX : points_for_x modsqrt x =
+               Ret (if Z.land y0 1 =? 0 then ((x, y0), (x, curve_p - y0)) else ((x, curve_p - y0), (x, y0)))).
+  { unfold points_for_x, mk_point. fold y0. destruct (Z.eqb_spec y0 0); [lia|].
+    rewrite C0, C1. cbn [bind]. destruct (Z.land y0 1 =? 0); reflexivity. }
+  unfold key_from_sec, sec_to_public_pair.
+  assert (Sx : slice 1 33 (c :: xs) = xs).
+  { unfold slice. cbn [skipn Nat.sub]. apply firstn_all2. lia. }
+  rewrite Sx, Fx. destruct (Z.leb_spec curve_p x); [lia|].
+  cbn [length]. rewrite Lx. cbn [Nat.eqb].
+  assert (Hpick : pick (negb (bytes_eqb [c] [x02]))
+            (if Z.land y0 1 =? 0 then ((x, y0), (x, curve_p - y0)) else ((x, curve_p - y0), (x, y0))) = (x, y)).
+  { destruct Hc as [[E ->]|[E ->]]; cbn [bytes_eqb byte_eqb];
+      [replace (byte_eqb x02 x02) with true by reflexivity | replace (byte_eqb x03 x02) with false by reflexivity];
+      cbn [andb negb pick].
+    - (* y even *) destruct Hy as [->| ->].
+      + rewrite E. reflexivity.
+      + destruct (Z.eqb_spec (Z.land y0 1) 0) as [E0|E0]; [|reflexivity].
+        rewrite (parity_sub _ _ curve_p_odd E0) in E. discriminate.
+    - (* y odd *) destruct Hy as [->| ->].
+      + rewrite E. reflexivity.
+      + destruct (Z.eqb_spec (Z.land y0 1) 0) as [E0|E0]; [reflexivity|].
+        rewrite (parity_sub' _ _ curve_p_odd E0) in E. discriminate. }
+  assert (Hsec0 : bytes_eqb (take 1 (c :: xs)) [x02] || bytes_eqb (take 1 (c :: xs)) [x03] = true).
+  { cbn [take firstn]. destruct Hc as [[_ ->]|[_ ->]]; reflexivity. }
+  rewrite Hsec0. rewrite PX. cbn [bind]. cbn [take firstn]. rewrite Hpick. cbn [bind].
+  unfold key_material_public. rewrite C, R. cbn [bind]. unfold is_sec_compressed. cbn [take firstn]. 
+  change (bytes_eqb [c] [x02] || bytes_eqb [c] [x03]) with (bytes_eqb (take 1 (c :: xs)) [x02] || bytes_eqb (take 1 (c :: xs)) [x03]).
+  rewrite Hsec0. reflexivity.
+Qed.
+
+Lemma public_pair_reserialize int10 int16 mulG net s o :
+  public_pair int10 int16 mulG modsqrt net s = Ret (Some o) ->
+  exists t, public_key_text net o = Ret t /\ sec modsqrt net t = Ret (Some o).
+Proof.
+  intros H. apply public_pair_in_range in H as (pt & -> & C & R).
+  destruct (sec_compressed_decodes pt C R) as (b & Hb & Hk).
+  exists (n_sec_prefix net ++ b2h b). split.
+  - unfold public_key_text, sec_bytes. rewrite Hb. reflexivity.
+  - unfold sec. rewrite strip_sec_prefix_text, h2b_b2h, Hk. reflexivity.
+Qed.
+
+End PairReser.
+
+Lemma electrum_reserialize stretch mulG net s o :
+  (electrum_seed stretch mulG net s = Ret (Some o) ->
+     exists t, electrum_text o = Ret t /\ electrum_seed stretch mulG net t = Ret (Some o)) /\
+  (electrum_prv mulG net s = Ret (Some o) ->
+     exists t, electrum_text o = Ret t /\ electrum_prv mulG net t = Ret (Some o)) /\
+  (electrum_pub net s = Ret (Some o) ->
+     exists t, electrum_text o = Ret t /\ electrum_pub net t = Ret (Some o)).
+Proof.
+  split; [|split]. apply electrum_seed_reserialize. eapply electrum_prv_reserialize; exact stretch. eapply electrum_pub_reserialize; [exact stretch | exact mulG].
 Qed.
